@@ -2,7 +2,7 @@
 
 _H = {
     "middleware": ["zz_verif_export.go"],
-    "middleware/resolver": ["zz_verif_export_authsim.go"],
+    "middleware/resolver": ["zz_verif_export_authsim.go", "zz_verif_export_c07race.go"],
     "middleware/cache": ["zz_verif_export_authsim.go"],
     "internal/authority": ["zz_verif_export_authsim.go"],
 }
@@ -30,3 +30,41 @@ CHECK = {
                      "shards": 4, "budget_s": {"quick": 40, "thorough": 120}},
     },
 }
+
+# C07/race: verif-only overlay patch of resolver.go (reporting hooks, no behaviour change; line count kept):
+# (1) entry of resolveWithCachedNameservers = processDelegation found the referral's zone in the delegation table,
+# (2)+(3) who waits in groupLookup's singleflight call on which key and which leader closures are active — the
+# explorer's quiescence criterion. The hook functions live in harness/middleware__resolver/zz_verif_export_c07race.go.
+_RACE_PATCH = {"middleware/resolver/resolver.go": [
+    ['\tif r.equalServers(cached.Servers, rs.servers) {\n',
+     '\tvkRaceHit(q.Name, rs.level); if r.equalServers(cached.Servers, rs.servers) {\n'],
+    ['\t\tresult, shared, leader, lookupErr := r.sfGroup.TimedDoChanWithRole(ctx, key, func() (any, error) {\n',
+     '\t\tvkRaceEnter(key); result, shared, leader, lookupErr := r.sfGroup.TimedDoChanWithRole(ctx, key, func() (any, error) { vkRaceFlight(key, 1); defer vkRaceFlight(key, -1)\n'],
+    ['\t\t\treturn r.lookup(ctx, rs, leaderReq, servers)\n\t\t})\n',
+     '\t\t\treturn r.lookup(ctx, rs, leaderReq, servers)\n\t\t}); vkRaceLeave(key)\n'],
+]}
+
+_RACE_UNIT = {"pkg": "internal/verifshim/h_c07", "run": "TestVerifC07Race", "harness": _H, "patch": _RACE_PATCH,
+              "shards": 16, "gomaxprocs": 2, "budget_s": {"quick": 70, "thorough": 600},
+              "doc": "event-order exploration of 2 (thorough: also 3) CONCURRENT client resolutions under one not-yet-cached zone on the real default chain: "
+                     "every upstream query is parked by a gate in front of each authsim server, each client runs in its own goroutine, the explorer releases one "
+                     "parked query at a time and waits for quiescence (overlay hooks around groupLookup's singleflight call + the gate's parked list, no timing), "
+                     "depth-first with replay from a cold state over EVERY delivery order. Universe: BASE (t., or p5.p4.p3.p2.t. = at the default QNAME-minimisation "
+                     "level) refers straight to evil.co.BASE, two labels down; the attacker's server answers names below sub.evil.co.BASE with a referral whose NS host "
+                     "ns1.victim.co.BASE lies outside its zone + glue to a trap; g.BASE is the victim's glue-less second zone (a later resolution consults the glue cache). "
+                     "Variants: the new zone's NS host glued / + a second glue-less NS host (lookupV4Nss publishes a provisional table entry while resolving it); "
+                     "QNAME minimisation off / 5; cold / parent cached; thorough: 3 clients, two sub-zone queries, validation on. Oracle: trap never contacted, glue "
+                     "cache holds only the victim's own address for ns1.victim.co.BASE, later victim probes = zone-model truth or SERVFAIL, client answers carry no "
+                     "foreign RRset. 'nontrivial' = executions in which processDelegation found the referral's zone in the delegation table "
+                     "(resolveWithCachedNameservers entered). Limits: between two deliveries the resolver's goroutines run free; where ONE delivery wakes two clients "
+                     "(shared singleflight lookup under minimisation) what is parked next can depend on their schedule - such branches are the union of what was "
+                     "observed (counters choice_sets_differing_on_replay, prefixes_not_replayable)."}
+
+# On /repo before 0ba6f8e the unit reported a genuine defect (36 keys race|<class>|<family>|<variant>|<cfg>, see mutants/C07/RESULTS.md
+# "unit race"); repaired there, the unit is part of every run (VERIF_C07_RACE=0 leaves it out).
+import os as _os
+if _os.environ.get("VERIF_C07_RACE", "1") != "0":
+    CHECK["units"]["race"] = _RACE_UNIT
+    CHECK["engines"] = CHECK["engines"] + ["event-order"]
+    CHECK["bounds"] = {"quick": CHECK["bounds"]["quick"] + "; race: 2 families x 2 variants x qmin {0,5} x {parent cached, cold}, 2 clients, every delivery order (~1.6 k executions)",
+                       "thorough": CHECK["bounds"]["thorough"] + "; race: + 3 clients (2 client sets), two sub-zone clients, validation on (~23 k executions)"}
